@@ -82,6 +82,25 @@ impl Family for SdkMath {
                 };
                 format!("sle {} {} {} {} {}", r.liquidity(), price, tl, tu, b(r.chance(1, 2)))
             }
+            4 if r.chance(1, 2) => {
+                // the quote functions' transfer-fee arithmetic
+                let bps = match r.below(5) {
+                    0 => r.pick(&[0u64, 1, 2, 9998, 9999, 10000, 10001, 65535]),
+                    1 => r.pick(&[50u64, 100, 300, 999, 1000, 2500, 5000, 7500]),
+                    _ => r.below(10001),
+                };
+                let max = match r.below(5) {
+                    0 => r.pick(&[0u64, 1, 2, u64::MAX, u64::MAX - 1, u64::MAX / 2]),
+                    1 => r.pick(&[5000u64, 1_000_000, 1_000_000_000]),
+                    _ => r.u64_amount(),
+                };
+                let amt = match r.below(5) {
+                    0 => r.pick(&[0u64, 1, 2, 9999, 10000, 10001, u64::MAX, u64::MAX - 1]),
+                    1 if bps > 0 => ((max as u128 * 10000 / bps as u128).min(u64::MAX as u128) as u64).saturating_add(r.pick(&[0u64, 1, 2])).saturating_sub(1),
+                    _ => r.u64_amount(),
+                };
+                format!("{} {} {} {}", if r.chance(1, 2) { "stf" } else { "srf" }, amt, bps, max)
+            }
             4 => format!("spt {}", r.sqrt_price()),
             _ => format!("slp {} {} {}", r.u64_amount(), r.pick(&[0u64, 1, 50, 100, 9999, 10000, 10001, 65535]), b(r.chance(1, 2))),
         }
@@ -188,6 +207,41 @@ impl Family for SdkMath {
                 }
                 match s {
                     Ok(v) => format!("ok {} {}", v.0, v.1),
+                    Err(e) => format!("err {}", if e == "Panic" { "Panic" } else { "sdk" }),
+                }
+            }
+            "stf" | "srf" => {
+                let (amt, bps, max) = (p64(t[1]), t[2].parse::<u16>().unwrap(), p64(t[3]));
+                let rev = t[0] == "srf";
+                let tf = sdk::TransferFee { fee_bps: bps, max_fee: max };
+                let s = guard(move || if rev { sdk::try_reverse_apply_transfer_fee(amt, tf) } else { sdk::try_apply_transfer_fee(amt, tf) }.map_err(|e| e.to_string()));
+                // exact oracle: fee(y) = min(ceil(y * bps / 10^4), max); apply = y - fee(y); reverse = the least y whose
+                // fee-reduced value reaches the amount
+                let fee = |y: u128| -> u128 { if bps == 0 || y == 0 { 0 } else { ((y * bps as u128 + 9999) / 10000).min(max as u128) } };
+                if bps <= 10000 {
+                    match &s {
+                        Ok(v) => {
+                            let v = *v as u128;
+                            if !rev && v != amt as u128 - fee(amt as u128) {
+                                ctx.viol(format!("C20/C16 SDK apply_transfer_fee({}, {} bps, max {}) = {}; amount - fee = {}", amt, bps, max, v, amt as u128 - fee(amt as u128)));
+                            }
+                            if rev && (v - fee(v) < amt as u128 || (v > 0 && amt > 0 && (v - 1) - fee(v - 1) >= amt as u128)) {
+                                ctx.viol(format!("C20/C16 SDK reverse_apply_transfer_fee({}, {} bps, max {}) = {} is not the least amount whose fee-reduced value reaches it", amt, bps, max, v));
+                            }
+                            ctx.nontrivial(line);
+                        }
+                        Err(e) => {
+                            if !rev {
+                                ctx.viol(format!("C20/C16 SDK apply_transfer_fee fails ({}) on a valid fee", e));
+                            }
+                        }
+                    }
+                } else if s.is_ok() {
+                    ctx.viol("C20/C16 the SDK accepts a transfer fee above 100 %".to_string());
+                }
+                ctx.tag(t[0]);
+                match s {
+                    Ok(v) => format!("ok {}", v),
                     Err(e) => format!("err {}", if e == "Panic" { "Panic" } else { "sdk" }),
                 }
             }
